@@ -169,6 +169,7 @@ def run(ctx, model):
             })
     builder_helpers(ctx, model, tup, cov)
     via_send_command(ctx, model, tup, cov)
+    highlevel_payloads(ctx, model, cov)
     if not ctx.quick():
         exhaustive_transmit(ctx, model, tup, cov)
     return cov
@@ -381,8 +382,80 @@ def via_send_command(ctx, model, tup, cov):
                 break
 
 
+def highlevel_payloads(ctx, model, cov):
+    """What TupimageTerminal.upload puts in the payload of an inline transmission when it encodes the image itself
+    (in-memory images, several in a row on ONE terminal object, larger before smaller and the reverse): the decoded payload
+    of every transmission is exactly the PNG encoding of THAT image — nothing left over from an earlier one."""
+    import io
+    work = ctx.work
+    rng = ctx.rng
+    orders = [[0, 2], [2, 0, 2], [1, 2, 1, 0], [0, 1, 2, 2, 0]] + [[rng.randrange(3) for _ in range(rng.randrange(2, 6))] for _ in range(ctx.pick(6, 40))]
+
+    def child():
+        common.scrub_process_env()
+        os.environ["HOME"] = work
+        os.environ["XDG_STATE_HOME"] = os.path.join(work, "state")
+        os.environ["XDG_CONFIG_HOME"] = os.path.join(work, "config")
+        import random as _rnd
+        import tupimage
+        from PIL import Image
+        noise = _rnd.Random(3)
+        imgs, pngs = [], []
+        for side in (48, 20, 3):                 # PNG encodings of very different lengths
+            im = Image.new("RGB", (side, side))
+            im.putdata([(noise.randrange(256), noise.randrange(256), noise.randrange(256)) for _ in range(side * side)])
+            b = io.BytesIO()
+            im.save(b, format="PNG")
+            imgs.append(im)
+            pngs.append(b.getvalue().hex())
+        tty_in = open("/dev/tty", "rb", buffering=0)
+        res = []
+        for oi, order in enumerate(orders):
+            db = os.path.join(work, f"c06-hl-{os.getpid()}-{oi}.db")
+            out = common.RecStream()
+            t = tupimage.TupimageTerminal(out_command=out, out_display=common.RecStream(), in_response=tty_in, id_database=db, config="DEFAULT", upload_method="direct",
+                                          redetect_terminal=False, num_tmux_layers=0, id_space="8bit")
+            sends = []
+            for ii in order:
+                n0 = len(out.writes)
+                t.upload(imgs[ii], force_upload=True)
+                sends.append([ii, [bytes(w).hex() for w in out.writes[n0:]]])
+            res.append(sends)
+            os.remove(db)
+        return {"pngs": pngs, "runs": res}
+
+    r = common.in_pty(child, timeout=300)
+    if "ok" not in r:
+        ctx.corr_breaks.append({"what": "high-level payload runs failed in the pty sandbox", "error": {k: v for k, v in r.items() if k != "tty"}})
+        return
+    pngs = [bytes.fromhex(x) for x in r["ok"]["pngs"]]
+    flat = [(oi, si, ii, w) for oi, sends in enumerate(r["ok"]["runs"]) for si, (ii, ws) in enumerate(sends) for w in ws]
+    parsed = model.batch([f"cmd.spec_parse {w}" for _, _, _, w in flat]) if flat else []
+    got = {}
+    for (oi, si, ii, w), rep in zip(flat, parsed):
+        pl = b""
+        if rep != "NONE" and ";" in rep:
+            x = rep.split(";", 1)[1]
+            pl = b"" if x in ("NOPAYLOAD", "-") else bytes.fromhex(x)
+        got.setdefault((oi, si, ii), bytearray()).extend(pl)
+    for (oi, si, ii), payload in got.items():
+        cov.add({"highlevel": "upload of an in-memory image", "order": orders[oi], "step": si}, klass="highlevel/in-memory-payload")
+        if bytes(payload) != pngs[ii]:
+            ctx.violations.append({"signature": {"class": "payload-differs-from-what-the-helper-was-given", "helper": "TupimageTerminal.upload"},
+                                   "what": f"one terminal object uploading in-memory images in the order {orders[oi]} (inline): the payload of transmission {si} has {len(payload)} bytes, "
+                                           f"the PNG encoding of image {ii} has {len(pngs[ii])}" + (" and is a prefix of it" if bytes(payload).startswith(pngs[ii]) else ""),
+                                   "case": {"tokens": ["helper", "highlevel-upload"], "escape": ""}})
+            break
+
+
 def replay(ctx, model, rec):
     case = rec["case"]
+    if case["tokens"][:2] == ["helper", "highlevel-upload"]:
+        n0 = len(ctx.violations)
+        highlevel_payloads(ctx, model, common.Coverage("replay"))
+        mine = ctx.violations[n0:]
+        del ctx.violations[n0:]
+        return {"violates": bool(mine), "violations": [v["what"] for v in mine][:3]}
     if case["tokens"][:1] == ["helper"]:
         sub = common.Ctx(ctx.prop, ctx.tier, ctx.seed)
         sub.work = ctx.work
